@@ -79,7 +79,7 @@ class C03(Property):
         "edit_survives_editor / _difficulty / _events / _general / _records (and the matching edit_frame_*)":
             "law-dependent: proved for every number codec satisfying CodecLaws (+ IntPrintLaw for AudioLeadIn), shown satisfiable by Lemmas/ToyCodec.lean; CodecLaws is now also a theorem "
             "for the model's IEEE codec (C02: parseBits_printBits_f64/_f32, printBits_clean, codecLaws_float(32) under the bit-cast hypothesis FloatBitsLaw about Lean's opaque Float); IntPrintLaw "
-            "for the IEEE instance is not proved, nor that Rust's Display/FromStr equal the model codec (tested by lib/codecgen.py). edit_survives_metadata / edit_frame_metadata (ten fields, any text that is its own trim without line feed — colons, `//`, brackets, header- and "
+            "likewise (C02: printBits_intBits_f64, intPrintLaw_float under FloatOfIntLaw). Not proved: that Rust's Display/FromStr equal the model codec (tested by lib/codecgen.py). edit_survives_metadata / edit_frame_metadata (ten fields, any text that is its own trim without line feed — colons, `//`, brackets, header- and "
             "version-like text, the empty text; positive ids) and the colours theorems need no law",
         "edit_survives_* / edit_frame_* are section level": "an edit replaces a section record by a representable record; the block the encoder writes for it reads back as exactly that record, and "
             "any observation the edit did not change reads as for the unedited record. edit_survives_records lifts this to the file (encode, bytes, reader, framing, Beatmap decoder) "
@@ -115,7 +115,7 @@ class C03(Property):
     trusted_base = [
         "Lean 4.33.0 kernel; axioms ⊆ {propext, Classical.choice, Quot.sound} per #print axioms",
         "hand-written decode + encode models tied to /repo by the `edit` differential of this run",
-        "number codec: CodecLaws proved for the model's printBits/parseBits (C02, Props/C02Codec.lean) up to the bit-cast hypothesis FloatBitsLaw; agreement with Rust's Display/FromStr tested, not proved",
+        "number codec: CodecLaws proved for the model's printBits/parseBits (C02, Props/C02Codec.lean) up to the runtime hypotheses FloatBitsLaw / FloatOfIntLaw; agreement with Rust's Display/FromStr tested, not proved",
     ]
     assumptions = ["edits are restricted to values the format can represent (DESIGN 5.3): trimmed single-line text; file names without `//`, quotes or backslashes and, for the "
                    "background, without commas; numbers within the parse limits and inside the field's clamp; ids and countdown offset positive; colours with alpha 255"]
